@@ -4,6 +4,7 @@ import (
 	"fmt"
 	"strings"
 	"testing"
+	"time"
 
 	exserver "github.com/cybergarage/go-redis/examples/go-redisd/server"
 	"github.com/cybergarage/go-redis/redis"
@@ -144,6 +145,10 @@ func evalC04Slow(c c04Slow) *Failure {
 				npeer++
 			}
 		}
+		if dl := m.Conns[0].WriteDeadline(); !dl.IsZero() && time.Until(dl) < 5*time.Second {
+			// the server has armed a write deadline: the slow reader stays slow beyond it
+			time.Sleep(time.Until(dl) + 20*time.Millisecond)
+		}
 		m.Conns[0].UnblockWrites()
 		if _, _, err := m.Step(0, nil); err != nil {
 			return stallFailure("c04", what)
@@ -157,7 +162,12 @@ func evalC04Slow(c c04Slow) *Failure {
 	if before, after, ok := m.Conns[0].Mutated(); ok {
 		return failf("c04|reply-bytes-changed-in-flight", "%s: a reply was %q when its write began and %q when it was delivered", what, clip(before), clip(after))
 	}
-	if f := c04CheckOut(what, m.Conns[0].Out(), len(c.Stream)); f != nil {
+	if m.Conns[0].WriteTimeouts() > 0 && m.Outcome(0) != nil {
+		// a reply write timed out and the server gave the connection up: the stream may end inside that frame, nothing may follow it
+		if _, _, err := resp.DecodeAll(m.Conns[0].Out()); err != nil && err != resp.ErrIncomplete {
+			return failf("c04|malformed", "%s: the bytes written before the connection was given up are not RESP (%v): %q", what, err, clip(m.Conns[0].Out()))
+		}
+	} else if f := c04CheckOut(what, m.Conns[0].Out(), len(c.Stream)); f != nil {
 		return f
 	}
 	return c04CheckOut(what+" [peer]", m.Conns[1].Out(), npeer)
@@ -376,7 +386,10 @@ func TestC04(t *testing.T) {
 		}
 		for i, n := 0, rapid.IntRange(1, 3).Draw(rt, "nreq"); i < n; i++ {
 			var cmd []string
-			switch rapid.IntRange(0, 4).Draw(rt, "acmd") {
+			switch rapid.IntRange(0, 5).Draw(rt, "acmd") {
+			case 5:
+				// run-time options any client may set
+				cmd = []string{"CONFIG", "SET", rapid.SampledFrom([]string{"timeout", "tcp-keepalive", "maxclients"}).Draw(rt, "opt"), "1"}
 			case 0:
 				cmd = []string{"ECHO", arg("echo")}
 			case 1:
